@@ -346,14 +346,30 @@ class Impl:
         except LiquidSyntaxError:
             return None
         pairs, raws = self.ast_obs(t.nodes)
-        outs, aouts = {}, {}
+        outs, others = {}, {}
         for di, d in enumerate(datas):
             for sup in (True, False):
                 env.suppress_blank_control_flow_blocks = sup
                 outs[(di, sup)] = t.render(**d)
-                aouts[(di, sup)] = run_coro(t.render_async(**d))
+                alt = [("render_async", run_coro(t.render_async(**d)))]
+                # the same render with every resource limit set (far above what
+                # the program needs): limits are a configuration bit that must
+                # not change a single character
+                set_limits(env, True)
+                try:
+                    alt.append(("render, limits set", t.render(**d)))
+                    alt.append(("render_async, limits set", run_coro(t.render_async(**d))))
+                finally:
+                    set_limits(env, False)
+                others[(di, sup)] = alt
         env.suppress_blank_control_flow_blocks = True
-        return {"pairs": pairs, "raws": raws, "outs": outs, "aouts": aouts}
+        return {"pairs": pairs, "raws": raws, "outs": outs, "others": others}
+
+
+def set_limits(env: Any, on: bool) -> None:
+    env.output_stream_limit = 1_000_000 if on else None
+    env.loop_iteration_limit = 1_000_000 if on else None
+    env.local_namespace_limit = 10_000_000 if on else None
 
 
 def run_coro(coro: Any) -> Any:
@@ -671,6 +687,48 @@ def branch_corpus(r: Any, thorough: bool) -> list[tuple[list, list[dict[str, Any
     return out
 
 
+def capture_corpus(r: Any) -> list[tuple[list, list[dict[str, Any]]]]:
+    """A capture that is the ONLY content of a control-flow block (so the block
+    is blank and renders into the null buffer when suppression is on), echoed
+    AFTER the block: the captured text must appear, with and without resource
+    limits, sync and async."""
+    def ws() -> tuple:
+        return ("C", gen_ws(r))
+
+    caps = [
+        [("B", "capture", 2, [("C", " cap T ")], [])],
+        [ws(), ("B", "capture", 2, [("C", "T"), ("L", False, "out", 0), ("C", " u\n")], []), ws()],
+        [("B", "capture", 2, [("R", " raw ")], [])],
+        [("B", "capture", 2, [("B", "capture", 3, [("C", "in")], []), ("C", "<"), ("L", True, "echo", 3), ("C", ">")], [])],
+        [("B", "capture", 2, [("B", "if", 1, [("C", " y ")], [(("else",), [("C", " n ")])])], []), ("L", True, "assign", None)],
+    ]
+    after = [[("L", False, "out", 2)], [("C", "["), ("L", True, "echo", 2), ("C", "]")]]
+
+    def outers(mid: list) -> list[tuple[list, dict[str, Any]]]:
+        return [
+            ([("B", "if", 0, mid, [])], {"b0": True}),
+            ([("B", "unless", 0, mid, [])], {"b0": False}),
+            ([("B", "if", 0, [ws()], [(("cond", 2), mid), (("else",), [ws()])])], {"b0": False, "b2": True}),
+            ([("B", "if", 0, [], [(("else",), mid)])], {"b0": False}),
+            ([("B", "for", 0, mid, [])], {"a0": [0, 0]}),
+            ([("B", "for", 0, [ws()], [(("else",), mid)])], {"a0": []}),
+            ([("B", "case", 0, [], [(("when", [1]), mid)])], {"k0": 1}),
+            ([("B", "case", 0, [], [(("when", [1]), [ws()]), (("else",), mid)])], {"k0": 0}),
+            ([("B", "with", 0, mid, [])], {}),
+            ([("B", "for", 0, [("B", "if", 1, mid, [])], [])], {"a0": [0], "b1": True}),
+        ]
+    out = []
+    n = 0
+    for cap in caps:
+        for items, enter in outers(cap):
+            d = gen_data(r)
+            d.update({"v0": "V", "v2": "OLD", "v3": "old3", "b1": n % 2 == 0})
+            d.update(enter)
+            out.append((items + after[n % 2], [d]))
+            n += 1
+    return out
+
+
 ILL_FORMED: list[list] = [
     [("B", "case", 0, [("C", " x ")], [(("when", [1]), [("C", "a")])])],        # text after case
     [("B", "case", 0, [("L", False, "out", 0)], [(("when", [1]), [("C", "a")])])],
@@ -897,6 +955,7 @@ def main(chk: C.Check, build: C.Build) -> None:
     exhaustive_max = 6 if thorough else 5
     programs: list[tuple] = [("corpus", p) for p in CORPUS]
     programs += [("branch", p, d) for p, d in branch_corpus(r, thorough)]
+    programs += [("branch", p, d) for p, d in capture_corpus(r)]
     programs += [("small", p) for p in small_programs(r, exhaustive_max)]
     for _ in range(170 if thorough else 44):
         budget = [r.choice([3, 4, 6, 8] if thorough else [3, 4, 5, 6])]
@@ -905,7 +964,7 @@ def main(chk: C.Check, build: C.Build) -> None:
 
     runner = GroupRunner(chk, "Trim.observe (render output, ContentNode trim pairs, RawNode texts)")
     stats = {"programs": 0, "renders": 0, "parses": 0, "exhaustive_programs": 0, "syntax_errors": 0,
-             "content_tokens_split_by_lexer": 0, "split_programs": 0, "suppressed_outputs": 0,
+             "content_tokens_split_by_lexer": 0, "split_programs": 0, "suppressed_outputs": 0, "history_renders": 0,
              "marker_positions_max": 0, "assignments": 0}
     nontrivial: set[str] = set()
     samples: list[dict[str, Any]] = []
@@ -948,7 +1007,16 @@ def main(chk: C.Check, build: C.Build) -> None:
         texts_expected: list[str] | None = None
         nums = []
         sfx = f"_{pi}{'s' if do_split else ''}"
-        async_items: list[dict[str, Any]] = []
+        extra_items: list[dict[str, Any]] = []
+        recorded: dict[tuple, str] = {}                 # (src, dt, di, sup) -> model-checked output
+        meta: dict[tuple, tuple] = {}                   # (src, dt) -> (assignment number, pairs code, raw indexes)
+
+        def case_item(dt: str, sup: bool, num: int, di: int, o: str, mk: int, rw: str, src: str, path: str) -> dict[str, Any]:
+            cf = f"(Build_cfg {WC_COQ[dt]} {C.cbool(sup)})"
+            return {"case": f"check_case {cf} P{sfx} {C.cnat(npos)} {num} D{di}{sfx} TBL{sfx} (Some ({tbl(o)}, {mk}, {rw}))",
+                    "model": f"observe {cf} (fst (remark (digits4 {C.cnat(npos)} {num}) P{sfx})) D{di}{sfx}",
+                    "replay": {"source": src, "default_trim": dt, "suppress": sup, "data": datas[di], "path": path,
+                               "implementation": o}}
         outcome_class: str | None = None
 
         def class_changed(src: str, cls: str, detail: str) -> None:
@@ -1006,7 +1074,10 @@ def main(chk: C.Check, build: C.Build) -> None:
             nums.append(num)
             srcs[num] = src
             no_trim_markers = all(m in ("", "+") for m in ms)
-            for dt in DTS:
+            # the three long-lived environments take turns in a different order
+            # for every assignment: no render may depend on what another
+            # environment rendered before
+            for dt in r.sample(DTS, 3):
                 res = impl.run(src, dt, datas, splits if do_split else None)
                 stats["parses"] += 1
                 if res is None:
@@ -1039,47 +1110,79 @@ def main(chk: C.Check, build: C.Build) -> None:
                     texts_expected = [t for t, _, _ in res["pairs"]]
                 for (di, sup), out in res["outs"].items():
                     d = datas[di]
-                    aout = res["aouts"][(di, sup)]
-                    for path, o in (("render", out), ("render_async", aout)):
+                    for path, o in [("render", out)] + res["others"][(di, sup)]:
                         stats["renders"] += 1
                         evaluations += 1
                         # oracle: only whitespace changes
                         if erase(o) != ref_erased[di]:
                             chk.finding("oracle:non-whitespace-changed",
-                                        f"markers/default_trim/suppression changed more than whitespace: {path}() of {src!r} "
+                                        f"markers/default_trim/suppression changed more than whitespace: {path} of {src!r} "
                                         f"default_trim={dt!r} suppress={sup} gives {o!r}; without whitespace control {ref_out[di]!r}",
                                         {"source": src, "default_trim": dt, "suppress": sup, "data": d, "output": o,
                                          "path": path, "reference_output": ref_out[di]})
                         # oracle: verbatim when no trimming is in force
                         if no_trim_markers and dt == "+" and not sup and o != ref_out[di]:
                             chk.finding("oracle:not-verbatim",
-                                        f"no trimming in force but {path}() of {src!r} gives {o!r}, verbatim text is {ref_out[di]!r}",
+                                        f"no trimming in force but {path} of {src!r} gives {o!r}, verbatim text is {ref_out[di]!r}",
                                         {"source": src, "data": d, "output": o, "path": path,
                                          "reference_output": ref_out[di]})
-                    # oracle: the async path writes exactly what the sync path writes
-                    if aout != out:
-                        chk.finding("oracle:async-differs-from-sync",
-                                    f"render_async() of {src!r} default_trim={dt!r} suppress={sup} gives {aout!r}, render() gives {out!r}",
-                                    {"source": src, "default_trim": dt, "suppress": sup, "data": d, "render": out,
-                                     "render_async": aout})
-                        if len(async_items) < 20:           # and the model is asked about the async output too
-                            cs = (f"(Build_cfg {WC_COQ[dt]} {C.cbool(sup)}) P{sfx} {C.cnat(npos)} {num} D{di}{sfx} TBL{sfx} "
-                                  f"(Some ({tbl(aout)}, {mk}, {rw}))")
-                            async_items.append({
-                                "case": "check_case " + cs,
-                                "model": f"observe (Build_cfg {WC_COQ[dt]} {C.cbool(sup)}) "
-                                         f"(fst (remark (digits4 {C.cnat(npos)} {num}) P{sfx})) D{di}{sfx}",
-                                "replay": {"source": src, "default_trim": dt, "suppress": sup, "data": d,
-                                           "render_async": aout, "render": out}})
+                        # oracle: the async path and the limits bit write exactly what plain render() writes
+                        if o != out:
+                            chk.finding("oracle:async-differs-from-sync" if path == "render_async"
+                                        else "oracle:limits-change-output",
+                                        f"{path} of {src!r} default_trim={dt!r} suppress={sup} gives {o!r}, render() gives {out!r}",
+                                        {"source": src, "default_trim": dt, "suppress": sup, "data": d, "render": out,
+                                         path: o})
+                            if len(extra_items) < 20:       # and the model is asked about this output too
+                                extra_items.append(case_item(dt, sup, num, di, o, mk, rw, src, path))
                     if sup and out != res["outs"][(di, False)]:
                         stats["suppressed_outputs"] += 1
                     if out != ref_out[di]:
                         nontrivial.add(f"{sfx}:{assignment_number(full)}:{dt}:{sup}:{di}")
                     term = f"({tbl(out)}, {mk}, {rw})"
                     exp.setdefault((dt, sup, di), []).append(outc.setdefault(term, len(outc)))
+                    recorded[(src, dt, di, sup)] = out
+                meta[(src, dt)] = (num, mk, rw)
         if model_items is None:                          # no assignment lexed as printed (reported above)
             return
-        gitems: list[dict[str, Any]] = list(async_items)
+        # ---- history: the SAME sources again on the long-lived environments,
+        # the three default_trim modes interleaved in varying orders, fresh
+        # parses and templates kept from earlier rounds; every render must give
+        # what the first (model-checked) render of that configuration gave
+        if origin != "illformed" and not do_split and meta:
+            ok_srcs = list(dict.fromkeys(k[0] for k in meta))
+            hist = ok_srcs[:1] + r.sample(ok_srcs[1:], min(2, len(ok_srcs) - 1))
+            hist = [x for x in hist if all((x, dt) in meta for dt in DTS)]
+            perms = list(itertools.permutations(DTS))
+            r.shuffle(perms)
+            held: dict[tuple, Any] = {}
+            for perm in perms[: 6 if thorough else 3]:
+                for hsrc in hist:
+                    for dt in perm:
+                        env = impl.envs[dt]
+                        ts = [("fresh parse", env.from_string(hsrc))]
+                        if (hsrc, dt) in held:
+                            ts.append(("template kept from an earlier round", held[(hsrc, dt)]))
+                        held[(hsrc, dt)] = ts[0][1]
+                        for how, t in ts:
+                            for di, d in enumerate(datas):
+                                for sup in (True, False):
+                                    env.suppress_blank_control_flow_blocks = sup
+                                    o = t.render(**d)
+                                    stats["history_renders"] += 1
+                                    evaluations += 1
+                                    want = recorded[(hsrc, dt, di, sup)]
+                                    if o != want:
+                                        chk.finding("oracle:history-dependent-output",
+                                                    f"{hsrc!r} with default_trim={dt!r} suppress={sup} rendered {want!r} at first and "
+                                                    f"{o!r} after other environments rendered the same text ({how}; order {perm})",
+                                                    {"source": hsrc, "default_trim": dt, "suppress": sup, "data": d,
+                                                     "first": want, "later": o, "order": perm, "how": how})
+                                        if len(extra_items) < 20:
+                                            num_, mk_, rw_ = meta[(hsrc, dt)]
+                                            extra_items.append(case_item(dt, sup, num_, di, o, mk_, rw_, hsrc, "history: " + how))
+                        env.suppress_blank_control_flow_blocks = True
+        gitems: list[dict[str, Any]] = list(extra_items)
         for (dt, sup, di), es in exp.items():
             es = [e if e >= 0 else len(outc) for e in es]
             args = (f"(Build_cfg {WC_COQ[dt]} {C.cbool(sup)}) P{sfx} {C.cnat(npos)} D{di}{sfx} TBL{sfx} OUTC{sfx} NS{sfx} "
@@ -1128,21 +1231,29 @@ def main(chk: C.Check, build: C.Build) -> None:
     for _ in range(100 if thorough else 30):
         texts.append("".join(r.choice(["\r", "\n", " ", "\r\n", "x", r.choice(WS_CHARS)]) for _ in range(r.randint(1, 7))))
     trim_items = []
-    trim_env = Environment()
+    trim_envs = {W.PLUS: impl.envs["+"], W.MINUS: impl.envs["-"], W.TILDE: impl.envs["~"], W.DEFAULT: Environment()}
+    trim_envs[W.DEFAULT].default_trim = W.DEFAULT
     for text in texts:
         tb = Table()
-        exp = []
-        for dt in order:
-            trim_env.default_trim = dt
-            for l in order:
-                for rr in order:
-                    got_t = trim_env.trim(text, l, rr)
-                    exp.append(tb(got_t))
-                    evaluations += 1
-                    if erase(got_t) != erase(text) or got_t not in text:
-                        chk.finding("oracle:trim-removed-non-whitespace",
-                                    f"env.trim({text!r}, {l}, {rr}) with default_trim {dt} = {got_t!r}",
-                                    {"text": text, "left": str(l), "right": str(rr), "default_trim": str(dt), "result": got_t})
+        got: dict[tuple, str] = {}
+        # the environments (one per default_trim, long-lived: they rendered all
+        # the programs above) are asked in a different order for every text,
+        # twice: a result must not depend on what another environment trimmed
+        for _round in range(2):
+            for dt in r.sample(order, 4):
+                for l in order:
+                    for rr in order:
+                        got_t = trim_envs[dt].trim(text, l, rr)
+                        evaluations += 1
+                        if got.setdefault((dt, l, rr), got_t) != got_t:
+                            chk.finding("oracle:history-dependent-output",
+                                        f"env.trim({text!r}, {l}, {rr}) with default_trim {dt} gave {got[(dt, l, rr)]!r} and later {got_t!r}",
+                                        {"text": text, "left": str(l), "right": str(rr), "default_trim": str(dt)})
+                        if erase(got_t) != erase(text) or got_t not in text:
+                            chk.finding("oracle:trim-removed-non-whitespace",
+                                        f"env.trim({text!r}, {l}, {rr}) with default_trim {dt} = {got_t!r}",
+                                        {"text": text, "left": str(l), "right": str(rr), "default_trim": str(dt), "result": got_t})
+        exp = [tb(got[(dt, l, rr)]) for dt in order for l in order for rr in order]
         trim_items.append({
             "case": f"check_trim {C.cstr(text)} {tb.coq()} {C.clist(map(str, exp), 'N')}",
             "model": f"trim_table {C.cstr(text)}",
